@@ -2633,6 +2633,11 @@ impl PoolExec {
         }
         let Some(ti) = self.w.by_hash.get(&snap.tip_hash()).cloned() else { return };
         let st = self.w.st(ti).clone();
+        if std::env::var_os("SIM_TRACE").is_some() {
+            for e in &d.entries {
+                eprintln!("[pool] {} status {} inputs {:?}", &hex(&e.tx.hash())[..10], e.status, e.tx.inputs().into_iter().map(|i| format!("{}:{}", &hex(&i.previous_output().tx_hash())[..10], Into::<u32>::into(i.previous_output().index()))).collect::<Vec<_>>());
+            }
+        }
         self.ev(&format!("pool at rest: {} entries (pending {}, gap {}, proposed {}) at tip n={}", d.entries.len(), d.counts.0, d.counts.1, d.counts.2, st.chain.len() - 1));
         let pooled: BTreeMap<Byte32, &pv::EntryDump> = d.entries.iter().map(|e| (e.tx.hash(), e)).collect();
         // time-locked transactions in the pool; after a reorganisation to a shorter chain the lock may
